@@ -235,3 +235,16 @@ Example C09_example_list :
   | Raise _ => False
   end.
 Proof. vm_compute. split; reflexivity. Qed.
+
+(** program arguments: a soft-quoted reference stays ONE string element whatever it references; the
+    naked reference is a bare symbol element (spliced if the symbol is a list) *)
+Example C09_example_args :
+  let src := [32; 97; 32; 34; 64; 91; 76; 93; 64; 34; 32; 64; 91; 76; 93; 64]%N in   (* a "@[L]@" @[L]@ *)
+  match ts_init src with
+  | Ok ts => match args_parse ascii_alnum ts with
+             | Ok (els, _) => els = [EStr [FConst [97]]; EStr [FSym [76]]; ESym [76]]%N
+             | Raise _ => False
+             end
+  | Raise _ => False
+  end.
+Proof. vm_compute. reflexivity. Qed.
